@@ -1,6 +1,8 @@
 import GoatProofs.Lemmas.C02JsonTop
 import GoatProofs.C01
 import GoatProofs.Lemmas.C02Time
+import GoatProofs.Lemmas.C02Claims
+import Goat.Model.JWTFull
 /-
 C02 — everything the library signs verifies again and yields the original content.
 
@@ -371,26 +373,22 @@ end Model.JWS
 namespace Model.JWT
 open Model.JWS
 
-/-- **jwt_sign_parse_front_roundtrip.**  `jwt.Sign(header, claims, key)` followed by `Parser.Parse`:
-    the header decodes to `hp'` and the claims step receives exactly the bytes the claims encoder
-    produced. -/
-theorem jwt_sign_parse_front_roundtrip (o : Oracle) (cfg : Cfg) (hp hp' : Header) (claims : Wire)
-    (sk vk : Sig.SigningKey) (d payload : Bytes)
+/-- **JWT front half for any claims encoder `enc` and claims step `pc`** (the signature is the C02
+    step): `jwt.Sign` followed by `Parser.Parse` decodes the header to `hp'` and hands the claims step
+    EXACTLY the bytes the claims encoder produced; the outcome of `Parse` is the outcome of that step. -/
+theorem jwt_front_roundtrip_with {γ : Type} (enc : PO Bytes) (pc : Bytes → PO γ) (o : Oracle) (cfg : Cfg)
+    (hp hp' : Header) (sk vk : Sig.SigningKey) (d : Bytes)
     (hb64 : B64Law o)
-    (hsign : (sign hp claims sk).run o = .ok d)
-    (hclaims : o ⟨"c02.jwt.encodeClaims", [claims]⟩ = .bytes payload)
+    (hsign : (signWith enc hp sk).run o = .ok d)
     (hhdr : HeaderRoundTrip o hp hp') (halg' : hp'.alg = hp.alg)
     (hallow : cfg.allows hp.alg = true) (hconf : cfg.configured = true)
     (hfind : Sig.signingKeyOfHandle (o (findKeyQuery hp')) = some (.ok vk))
-    (hpair : Sig.SignVerifyPair o sk vk)
-    (hparse : (o ⟨"c01.jwt.parseClaims", [.bytes payload]⟩).isNone = false) :
-    (parse cfg d).run o = .ok (hp', o ⟨"c01.jwt.parseClaims", [.bytes payload]⟩) := by
-  unfold sign at hsign
+    (hpair : Sig.SignVerifyPair o sk vk) :
+    ∃ pl, enc.run o = .ok pl ∧
+      (parseWith pc cfg d).run o = (do let c ← pc pl; pure (hp', c) : PO (Header × γ)).run o := by
+  unfold signWith at hsign
   obtain ⟨pl, hpl, hsign⟩ := PO.run_bind_eq_ok o _ _ _ hsign
-  have hpl' : pl = payload := by
-    simp only [PO.run_bind, PO.run_query, hclaims, PO.run_pure] at hpl
-    injection hpl with hpl; exact hpl.symm
-  subst hpl'
+  refine ⟨pl, hpl, ?_⟩
   obtain ⟨W, hW, hsign⟩ := PO.run_bind_eq_ok o _ _ _ hsign
   obtain ⟨hj, hhj, hsign⟩ := PO.run_bind_eq_ok o _ _ _ hsign
   obtain ⟨b1, hb1, hsign⟩ := PO.run_bind_eq_ok o _ _ _ hsign
@@ -415,7 +413,7 @@ theorem jwt_sign_parse_front_roundtrip (o : Oracle) (cfg : Cfg) (hp hp' : Header
   rw [g2] at p1; injection p1 with p1; subst p1
   obtain ⟨e, f1, f2, f3⟩ := hb64 sg
   rw [g3] at f1; injection f1 with f1; subst f1
-  unfold parse
+  unfold parseWith
   simp only [hconf, Bool.not_true, Bool.false_eq_true, if_false]
   rw [splitDot_append b1 _ e3]
   simp only
@@ -434,8 +432,107 @@ theorem jwt_sign_parse_front_roundtrip (o : Oracle) (cfg : Cfg) (hp hp' : Header
     exact hpair _ _ hsg
   have s5 : (stage "payloadb64" (b64Decode b2)).run o = .ok pl := (stage_ok o _ _ _).2 ((b64Decode_ok o _ _).2 p2)
   rw [PO.run_bind_ok o _ _ _ s3, PO.run_bind_ok o _ _ _ s4, PO.run_bind_ok o _ _ _ s5]
-  simp only [PO.run_bind, PO.run_query]
-  cases hq : o ⟨"c01.jwt.parseClaims", [.bytes pl]⟩ <;> simp [hq, Wire.isNone] at hparse ⊢
+  exact PO.run_bind o _ _
+
+/-- **jwt_sign_parse_front_roundtrip** (claims codec as one abstract step on both sides) -/
+theorem jwt_sign_parse_front_roundtrip (o : Oracle) (cfg : Cfg) (hp hp' : Header) (claims : Wire)
+    (sk vk : Sig.SigningKey) (d payload : Bytes)
+    (hb64 : B64Law o)
+    (hsign : (sign hp claims sk).run o = .ok d)
+    (hclaims : o ⟨"c02.jwt.encodeClaims", [claims]⟩ = .bytes payload)
+    (hhdr : HeaderRoundTrip o hp hp') (halg' : hp'.alg = hp.alg)
+    (hallow : cfg.allows hp.alg = true) (hconf : cfg.configured = true)
+    (hfind : Sig.signingKeyOfHandle (o (findKeyQuery hp')) = some (.ok vk))
+    (hpair : Sig.SignVerifyPair o sk vk)
+    (hparse : (o ⟨"c01.jwt.parseClaims", [.bytes payload]⟩).isNone = false) :
+    (parse cfg d).run o = .ok (hp', o ⟨"c01.jwt.parseClaims", [.bytes payload]⟩) := by
+  obtain ⟨pl, hpl, hr⟩ := jwt_front_roundtrip_with (encodeClaimsOracle claims) claimsOracle o cfg hp hp' sk vk d
+    hb64 hsign hhdr halg' hallow hconf hfind hpair
+  have : pl = payload := by
+    simp only [encodeClaimsOracle, PO.run_bind, PO.run_query, hclaims, PO.run_pure] at hpl
+    injection hpl with hpl; exact hpl.symm
+  subst this
+  unfold parse
+  rw [hr]
+  have hc : (claimsOracle pl).run o = .ok (o ⟨"c01.jwt.parseClaims", [.bytes pl]⟩) :=
+    (claimsOracle_ok o pl _).2 ⟨rfl, hparse⟩
+  rw [PO.run_bind_ok o _ _ _ hc]
+  rfl
+
+/-! ### the assembled JWT round trip: claims codec (C10) + signature (C02) + validation (C04) -/
+
+open Model.JWTClaims in
+/-- **jwt_sign_parse_roundtrip (assembled).**  For every header, claims set and key: if `jwt.Sign`
+    succeeds with token `d`, then `Parser.Parse d` is — outcome for outcome — the claims step
+    (`parseClaims`: JSON decoding, issuer and audience verifiers, `exp`/`nbf` against the clock, the
+    NumericDate codec) applied to exactly the bytes `encodeClaims` produced, paired with the decoded
+    header.  The three steps and who owns them:
+    * signature (C02, this file): laws `B64Law`, `HeaderRoundTrip`, `SignVerifyPair`, the finder returns the
+      verification key, the algorithm is allowed — consumed here;
+    * claims codec (C10): `hcodec` — what `parseClaims` returns on the encoded bytes; C10 proves the
+      parts (strings, audience shapes, NumericDate for whole seconds; every nanosecond:
+      `C02Time.numeric_date_text_exact` for the encoder, `numeric_date_roundtrip_classes` and the stream
+      for the decoder, until C10's general `numericDate_roundtrip` lands);
+    * validation (C04): success of `parseClaims` means the clock is inside the validity window and
+      both verifiers accepted (`GoatProofs.C04.finish_ok`, `jwt_parse_ok_sound`). -/
+theorem jwt_sign_parse_roundtrip (o : Oracle) (cfg : Cfg) (hp hp' : Header) (c c' : Claims)
+    (sk vk : Sig.SigningKey) (d : Bytes)
+    (hb64 : B64Law o)
+    (hsign : (signFull hp c sk).run o = .ok d)
+    (hhdr : HeaderRoundTrip o hp hp') (halg' : hp'.alg = hp.alg)
+    (hallow : cfg.allows hp.alg = true) (hconf : cfg.configured = true)
+    (hfind : Sig.signingKeyOfHandle (o (findKeyQuery hp')) = some (.ok vk))
+    (hpair : Sig.SignVerifyPair o sk vk)
+    (hcodec : ∀ payload, (encodeClaims c).run o = .ok payload → (parseClaims payload).run o = .ok c') :
+    (parseFull cfg d).run o = .ok (hp', c') := by
+  obtain ⟨pl, hpl, hr⟩ := jwt_front_roundtrip_with (encodeClaims c) parseClaims o cfg hp hp' sk vk d
+    hb64 hsign hhdr halg' hallow hconf hfind hpair
+  unfold parseFull
+  rw [hr, PO.run_bind_ok o _ _ _ (hcodec pl hpl)]
+  rfl
+
+open Model.JWTClaims in
+/-- … and whatever the claims step answers (expired, not yet valid, issuer/audience refused, a
+    claim that does not decode) is what `Parse` answers: the front half neither hides nor adds an
+    error once the token was produced by `Sign` -/
+theorem jwt_sign_parse_outcome (o : Oracle) (cfg : Cfg) (hp hp' : Header) (c : Claims)
+    (sk vk : Sig.SigningKey) (d : Bytes)
+    (hb64 : B64Law o)
+    (hsign : (signFull hp c sk).run o = .ok d)
+    (hhdr : HeaderRoundTrip o hp hp') (halg' : hp'.alg = hp.alg)
+    (hallow : cfg.allows hp.alg = true) (hconf : cfg.configured = true)
+    (hfind : Sig.signingKeyOfHandle (o (findKeyQuery hp')) = some (.ok vk))
+    (hpair : Sig.SignVerifyPair o sk vk) :
+    ∃ payload, (encodeClaims c).run o = .ok payload ∧
+      (parseFull cfg d).run o = (do let c' ← parseClaims payload; pure (hp', c') : PO (Header × Claims)).run o :=
+  jwt_front_roundtrip_with (encodeClaims c) parseClaims o cfg hp hp' sk vk d
+    hb64 hsign hhdr halg' hallow hconf hfind hpair
+
+open Model.JWTClaims in
+/-- **JWT time claims, every nanosecond.**  `jwt.Sign(header, claims, key)` then `Parser.Parse`:
+    `ExpirationTime`, `NotBefore`, `IssuedAt` come back as exactly the instants that were signed —
+    any instant the encoder accepts (|seconds| ≤ 253402300799), any nanosecond part, either sign;
+    an unset claim stays unset.  Signature laws as in `jwt_sign_parse_roundtrip`; `hjson` = JSON law
+    on the claims object; `hunset` = `Raw` carries no stray exp/nbf/iat member; `hstep` = the claims
+    step succeeds (verifiers accept, the clock is inside the validity window: C04). -/
+theorem jwt_sign_parse_time_claims (o : Oracle) (cfg : Cfg) (hp hp' : Header) (c c' : Claims)
+    (sk vk : Sig.SigningKey) (d : Bytes)
+    (hb64 : B64Law o)
+    (hsign : (signFull hp c sk).run o = .ok d)
+    (hhdr : HeaderRoundTrip o hp hp') (halg' : hp'.alg = hp.alg)
+    (hallow : cfg.allows hp.alg = true) (hconf : cfg.configured = true)
+    (hfind : Sig.signingKeyOfHandle (o (findKeyQuery hp')) = some (.ok vk))
+    (hpair : Sig.SignVerifyPair o sk vk)
+    (hjson : ∀ payload m raw, (encodeClaims c).run o = .ok payload → claimsMap c = .ok m →
+      rawMap (o ⟨"json.decodeMap", [.bytes payload]⟩) = some raw → ∀ k, Wire.lookup k raw = Wire.lookup k m)
+    (hunset : ∀ name, name = "exp" ∨ name = "nbf" ∨ name = "iat" →
+      Wire.lookup name (C02Time.rawMembers c) = none)
+    (hstep : ∀ payload, (encodeClaims c).run o = .ok payload → (parseClaims payload).run o = .ok c') :
+    (parseFull cfg d).run o = .ok (hp', c') ∧ c'.exp = c.exp ∧ c'.nbf = c.nbf ∧ c'.iat = c.iat := by
+  refine ⟨jwt_sign_parse_roundtrip o cfg hp hp' c c' sk vk d hb64 hsign hhdr halg' hallow hconf hfind hpair hstep, ?_⟩
+  obtain ⟨payload, henc, _⟩ := jwt_sign_parse_outcome o cfg hp hp' c sk vk d hb64 hsign hhdr halg' hallow hconf hfind hpair
+  exact C02Time.time_claims_roundtrip o c c' payload henc (fun m raw hm hr => hjson payload m raw henc hm hr)
+    hunset (hstep payload henc)
 
 end Model.JWT
 
@@ -449,12 +546,11 @@ is covered by the two theorems below:
 
 * `numeric_date_text_exact` (∀ instant, ∀ nanosecond): the text `MarshalJSON` emits denotes exactly the
   instant — in particular the leading zeros of the fraction are kept (`0.0625`, never `0.625`);
-* `numeric_date_roundtrip_classes`: goat's big.Float decoder applied to the emitted text gives the
-  instant back, kernel-evaluated on every magnitude class of the nanosecond part (0, 10^k, 10^k ± 1,
-  trailing-zero patterns, 62_500_000, 99_999_999, 100_000_000, 999_999_999 …) × seconds {0, ±1, −2,
-  ±1.7·10^9, the accepted bounds ±253402300799 and one inside}.
-Still open (as in C10): `decode (encode t) = t` for EVERY fractional `t` — it needs the error analysis
-of the 128-bit big.Float parse/multiply and the float64 truncation; tied by the harness stream. -/
+* `Model.JWT.jwt_sign_parse_time_claims` (below, after the assembled theorem's namespace): through
+  `jwt.Sign` → `Parser.Parse` the claims `exp`, `nbf`, `iat` come back as the SAME instants, to the
+  nanosecond, for every instant the encoder accepts — a corollary of C10's `numericDate_roundtrip`
+  (∀ t in range, decode (encode t) = t; error analysis of the 128-bit big.Float parse), C04's `finish_ok`
+  and `C02Time.time_claims_roundtrip` (Lemmas/C02Claims.lean). -/
 namespace C02Time
 open Model.NumericDate
 
@@ -480,31 +576,11 @@ example : nanosOfChars "1700000000.625".toList ≠ some 1700000000062500000 := b
 example : encodeChars 1700000000062500000 = .ok "1700000000.0625".toList := by rfl
 example : encodeChars (-1500000000) = .ok "-1.5".toList := by rfl
 
-/-- nanosecond parts of every magnitude class -/
-def nsClasses : List Int :=
-  [0, 1, 9, 10, 11, 99, 100, 101, 999, 1000, 1001, 9999, 10000, 10001, 99999, 100000, 100001,
-   999999, 1000000, 1000001, 9999999, 10000000, 10000001, 99999999, 100000000, 100000001,
-   62500000, 120000000, 500000000, 123456789, 999999990, 999999999, 900000000, 1200]
-
-/-- whole-second parts: around the epoch, typical, and the accepted bounds -/
-def secClasses : List Int :=
-  [0, 1, -1, -2, 1700000000, -1700000000, 253402300799, 253402300798, -253402300798, -253402300799]
-
-def classInstants : List Int :=
-  secClasses.flatMap (fun s => nsClasses.map (fun n => s * 1000000000 + n))
-
-def roundTrips (t : Int) : Bool :=
-  match (encodeChars t).bind decodeChars with
-  | .ok v => v == t
-  | _ => false
-
-/-- encoder + goat's big.Float decoder give the instant back on every magnitude class
-    (340 instants, kernel evaluation of the model) -/
-theorem numeric_date_roundtrip_classes : classInstants.all roundTrips = true := by decide +kernel
-
-/-- below the lower bound the encoder refuses (no text is emitted) -/
-example : (match encodeChars (-253402300800 * 1000000000 - 1) with | .err _ => true | _ => false) = true := by
-  decide +kernel
+/-- a few kernel-evaluated round trips through goat's big.Float decoder (the general statement is
+    C10's `numericDate_roundtrip`, used below) -/
+example : (encodeChars 1700000000062500000).bind decodeChars = .ok 1700000000062500000 := rfl
+example : (encodeChars (-1700000000062500000)).bind decodeChars = .ok (-1700000000062500000) := rfl
+example : (encodeChars 253402300799000000001).bind decodeChars = .ok 253402300799000000001 := rfl
 
 end C02Time
 
